@@ -1,6 +1,8 @@
 package metric
 
 import (
+	jump "github.com/lithammer/go-jump-consistent-hash"
+
 	"time"
 
 	flatbuffers "github.com/google/flatbuffers/go"
@@ -171,7 +173,22 @@ func verifC16Partition() {
 	hs := make([]uint64, n)
 	for i := 0; i < n; i++ {
 		ts[i] = base + verifRange("tsOffset", 0, 3*3600000-1)
-		hs[i] = verifNondetUint64("kvsHash")
+		// the row's shard is an input of its own (jump hash is an uninterpreted function in the
+		// engine: without this a counterexample's shard grouping could not be replayed natively);
+		// natively a tags hash with that shard is searched
+		want := int32(verifRange("shardOfRow", 0, int64(shards)-1))
+		if verifIsSymbolic() {
+			hs[i] = verifNondetUint64("kvsHash")
+			verifAssume(jump.Hash(hs[i], shards) == want)
+		} else {
+			_ = verifNondetUint64("kvsHash")
+			for h := uint64(i) * 1000003; ; h++ {
+				if jump.Hash(h, shards) == want {
+					hs[i] = h
+					break
+				}
+			}
+		}
 		verifAddRow(batch, i, ts[i], hs[i])
 	}
 	seen := make([]int, n)
